@@ -62,8 +62,8 @@ class HostObservation(AbstractObservation, discriminator="host"):
         """
         If True, applications must be scanned to update the health state. If False, true state is always shown.
         """
-        include_users: Optional[bool] = True
-        """If True, report user session information."""
+        include_users: Optional[bool] = None
+        """If True, report user session information. When not given, the nodes-level setting (default True) applies."""
 
     def __init__(
         self,
